@@ -124,20 +124,39 @@ def run(ctx, res):
                     "(shift_action(ctx, token); children left to right, then reduce_action(ctx, prod, children.len()))", floor=2)
     h = F.one(r"^rustemo::glr::gss::Tree::<[^>]*>::build_inner$")
     okp = False
-    for p in Sim(h, F).run():
+    hpaths = Sim(h, F).run()
+    ADAPT = ("::rev", "::filter", "::skip", "::take", "::step_by")
+    # loop form: a body path that calls build_inner on the element `next()` yielded
+    def next_call(p, want):
+        for tm, v in p.cond:
+            if isinstance(tm, tuple) and tm[0] == "discr" and is_call(tm[1], "Iterator::next") and v == frozenset([want]):
+                return tm[1]
+        return None
+    loop_body_ok = any(next_call(p, "Some") is not None and any(
+        e[0] == "call" and "build_inner" in e[1] and mir.contains(e[2], lambda x: x == next_call(p, "Some")) for e in p.events)
+        for p in hpaths)
+    for p in hpaths:
         i_fe = idx(p, "Iterator::for_each")
         i_ra = idx(p, "LRBuilder::reduce_action")
         if i_ra is not None:
+            src = None
             if i_fe is not None and i_fe < i_ra:
-                fe = p.events[i_fe]
-                src = fe[2][0]
-                adapt = [mir.short(c[1]) for c in mir.calls_in(src) if any(k in c[1] for k in ("::rev", "::filter", "::skip", "::take"))]
+                # children.iter().for_each(|c| c.build_inner(..))
+                src = p.events[i_fe][2][0]
+            else:
+                # for child in &children { child.build_inner(..) }: the iterator is exhausted before reduce_action
+                nx = next_call(p, "None")
+                i_nx = idx(p, "Iterator::next")
+                if nx is not None and loop_body_ok and i_nx is not None and i_nx < i_ra:
+                    src = nx[2][0]
+            if src is None:
+                res.violation(rid8, "replay/post-order", "the node's reduce_action is not called after its children were replayed", h.loc())
+            else:
+                adapt = [mir.short(c[1]) for c in mir.calls_in(src) if any(k in c[1] for k in ADAPT)]
                 if adapt:
                     res.violation(rid8, "replay/children-order", "children are replayed through %s" % adapt, h.loc())
                 else:
                     okp = True
-            else:
-                res.violation(rid8, "replay/post-order", "the node's reduce_action is not called after its children were replayed", h.loc())
             ra = p.events[i_ra]
             if not (ra[2][2][0] in ("vfield", "field") or mir.contains(ra[2][2], lambda x: isinstance(x, tuple) and x[0] == "vfield" and x[3] == "prod")):
                 res.violation(rid8, "replay/prod", "reduce_action is replayed with %s" % fmt(ra[2][2])[:80], h.loc())
